@@ -13,12 +13,18 @@ structure Sys where
   w : World := World.init 1024 128
   /-- entity label ↦ handle -/
   labels : AL Ent := []
+  /-- labels created since the last `reset` (names and snapshots use only these: `Reset`
+      re-issues the same handles) -/
+  epoch : List (Nat × Ent) := []
+  /-- labels of the previous epoch: usable only by `alive`, until the next creation -/
+  oldLabels : AL Ent := []
   /-- component name number ↦ ID, in registration order -/
   comps : AL Nat := []
   queries : AL QueryObj := []
   qFilter : AL Nat := []   -- query label ↦ filter label (for printing values)
-  dumps : AL Dump := []
+  dumps : AL (Dump × AL Ent × List (Nat × Ent)) := []
   snap : Bool := true
+  fillers : Nat := 0
   lineNo : Nat := 0
 
 /-! ### parsing helpers -/
@@ -65,9 +71,13 @@ def compName (s : Sys) (id : Nat) : String :=
 /-- label of an entity handle (for printing) -/
 def entName (s : Sys) (e : Ent) : String :=
   if e == Ent.zero then "z" else
-  match List.find? (fun (_, h) => h == e) s.labels with
+  match List.find? (fun (_, h) => h == e) s.epoch with
   | some (l, _) => s!"e{l}"
   | none => s!"?{e}"
+
+def addLabels (s : Sys) (news : List (Nat × Ent)) : Sys :=
+  { s with labels := news.foldl (fun m (l, e) => AL.insert m l e) s.labels, epoch := s.epoch ++ news,
+           oldLabels := [] }
 
 /-- entity for a label token (`z` = zero entity) -/
 def entOf (s : Sys) (tok : String) : Option Ent :=
@@ -166,7 +176,7 @@ def fmtLog (s : Sys) : LogEv → String
   | .fn e lk comps => s!"  fn {s.entName e} locked={if lk then 1 else 0} " ++ s.fmtComps comps []
 
 def snapshot (s : Sys) : String :=
-  "  S " ++ " ".intercalate ((s.labels.filter fun (_, e) => s.w.alive e).map fun (_, e) => s.fmtEntity e)
+  "  S " ++ " ".intercalate ((s.epoch.filter fun (_, e) => s.w.alive e).map fun (_, e) => s.fmtEntity e)
 
 end Sys
 
@@ -222,11 +232,12 @@ def step (s : Sys) (line : String) : IO Sys := do
     let snap := !(hasFlag rest "nosnap")
     let s' : Sys := { w := World.init (cap.toNat?.getD 1024) (rel.toNat?.getD 128) maxc, snap, lineNo := s.lineNo }
     emitResult s' "ok"
-  | ["reg", name, kind, _size] =>
+  | ["reg", name, kind, size] =>
     match numOf name with
     | none => skip
     | some n =>
-      let k : CompKind := { isRel := kind == "rel", zst := kind == "zst" }
+      let sz := size.toNat?.getD 8
+      let k : CompKind := { isRel := kind == "rel", zst := sz == 0, size := sz }
       let (s, r) := s.run (registerComponent k)
       let s := match r with | .ok id => { s with comps := AL.insert s.comps n id } | .error _ => s
       emitResult s (resStr r fun id => toString id)
@@ -235,22 +246,22 @@ def step (s : Sys) (line : String) : IO Sys := do
     let mut s := s
     let mut last := "ok"
     for _ in List.range cnt do
-      let (s', r) := s.run (registerComponent {})
-      s := s'
+      let (s', r) := s.run (registerComponent { size := s.fillers + 1 })
+      s := { s' with fillers := s'.fillers + 1 }
       last := resStr r fun _ => ""
     emitResult s last
   | "new" :: lbl :: path :: rest =>
     match numOf lbl, s.compArgs rest with
     | some l, some a =>
       let (s, r) := s.run (opNewEntity probe (Sys.pathOf path) a.ids a.vals a.rels)
-      let s := match r with | .ok e => { s with labels := s.labels ++ [(l, e)] } | .error _ => s
+      let s := match r with | .ok e => s.addLabels [(l, e)] | .error _ => s
       emitResult s (resStr r fun e => s!"e{l}={e}")
     | _, _ => skip
   | ["new0", lbl] =>
     match numOf lbl with
     | some l =>
       let (s, r) := s.run (opNewEntity0 probe)
-      let s := match r with | .ok e => { s with labels := s.labels ++ [(l, e)] } | .error _ => s
+      let s := match r with | .ok e => s.addLabels [(l, e)] | .error _ => s
       emitResult s (resStr r fun e => s!"e{l}={e}")
     | none => skip
   | "add" :: e :: path :: rest =>
@@ -297,11 +308,11 @@ def step (s : Sys) (line : String) : IO Sys := do
     match numOf lbl, s.entOf e with
     | some l, some e =>
       let (s, r) := s.run (opCopyEntity probe e)
-      let s := match r with | .ok ne => { s with labels := s.labels ++ [(l, ne)] } | .error _ => s
+      let s := match r with | .ok ne => s.addLabels [(l, ne)] | .error _ => s
       emitResult s (resStr r fun ne => s!"e{l}={ne}")
     | _, _ => skip
   | ["alive", e] =>
-    match s.entOf e with
+    match (s.entOf e).orElse fun _ => (numOf e).bind (AL.find? s.oldLabels) with
     | some e => emitResult s s!"ok {if s.w.alive e then 1 else 0}"
     | none => skip
   | "filter" :: lbl :: kind :: rest =>
@@ -409,7 +420,7 @@ def step (s : Sys) (line : String) : IO Sys := do
       | .ok (t, start) =>
         let T := s.w.tbl t
         let news := (List.range n).map fun i => (l + i, T.getEntity (start + i))
-        let s := { s with labels := s.labels ++ news }
+        let s := s.addLabels news
         emitResult s ("ok " ++ " ".intercalate (news.map fun (l, e) => s!"e{l}={e}"))
       | .error k => emitResult s ("panic " ++ k.name)
     | _, _, _ => skip
@@ -421,7 +432,7 @@ def step (s : Sys) (line : String) : IO Sys := do
       | .ok (t, start) =>
         let T := s.w.tbl t
         let news := (List.range n).map fun i => (l + i, T.getEntity (start + i))
-        let s := { s with labels := s.labels ++ news }
+        let s := s.addLabels news
         emitResult s ("ok " ++ " ".intercalate (news.map fun (l, e) => s!"e{l}={e}"))
       | .error k => emitResult s ("panic " ++ k.name)
     | _, _ => skip
@@ -491,7 +502,9 @@ def step (s : Sys) (line : String) : IO Sys := do
     | _, _, _ => skip
   | ["reset"] =>
     let (s, r) := s.run opReset
-    -- open query objects keep their lock bits; the Go objects do too
+    let s := match r with
+      | .ok _ => { s with epoch := [], oldLabels := s.labels, labels := [] }
+      | .error _ => s
     emitResult s (resStr r)
   | ["shrink"] =>
     let (s, r) := s.run (opShrink false)
@@ -512,14 +525,18 @@ def step (s : Sys) (line : String) : IO Sys := do
         let w ← M.get
         pure ({ entities := w.pool.ents, alive := vs.map (·.e.id), next := w.pool.next,
                 available := w.pool.available } : Dump))
-      let s := match r with | .ok dd => { s with dumps := AL.insert s.dumps l dd } | .error _ => s
+      let s := match r with
+        | .ok dd => { s with dumps := AL.insert s.dumps l (dd, s.labels, s.epoch) }
+        | .error _ => s
       emitResult s (resStr r fun dd =>
         s!"ents={",".intercalate (dd.entities.map toString)} alive={",".intercalate (dd.alive.map toString)} next={dd.next} avail={dd.available}")
     | none => skip
   | ["load", d] =>
     match (numOf d).bind (AL.find? s.dumps) with
-    | some dd =>
+    | some (dd, lbls, ep) =>
       let (s, r) := s.run (opLoad dd)
+      -- the handles of the source world are valid again
+      let s := match r with | .ok _ => { s with oldLabels := [], labels := lbls, epoch := ep } | .error _ => s
       emitResult s (resStr r)
     | none => skip
   | ["res", "add", r, v] =>
